@@ -74,7 +74,11 @@ struct PathState
     // caches keyed by z3 AST id; the expr is stored too so that the AST stays alive and its id cannot be recycled
     std::unordered_map<unsigned, std::pair<z3::expr, std::vector<int>>> syms_cache;
     std::unordered_map<unsigned, std::pair<z3::expr, bool>> lin_cache;
-    std::unordered_map<unsigned, bool> decided;  // ast id of a (simplified) condition -> outcome already on the path
+    // ast id of a (simplified) condition -> outcome already on the path.  The expression is kept alive next to its id: z3 recycles the
+    // ids of dead ASTs, and how soon depends on the in-process solver's activity (timeouts under load), which made replays of a
+    // decision prefix diverge once in a while
+    std::unordered_map<unsigned, bool> decided;
+    std::vector<z3::expr> decided_keep;
     std::vector<Decision> decisions;
     std::string prefix;  // decisions to replay ('0'/'1')
     std::vector<std::string> new_prefixes;
@@ -1448,6 +1452,7 @@ bool decide(const z3::expr& cond)
         add_constraint(out ? c : !c);
         P->decisions.push_back({out, true, h});
         P->decided[cid] = out;
+        P->decided_keep.push_back(c);
         return out;
     }
     SolveResult rt = solve(with_slice(c), false, true);
@@ -1474,6 +1479,7 @@ bool decide(const z3::expr& cond)
     add_constraint(out ? c : !c);
     P->decisions.push_back({out, forced, h});
     P->decided[cid] = out;
+    P->decided_keep.push_back(c);
     return out;
 }
 
